@@ -13,7 +13,8 @@ import json, os, re, shutil, subprocess, sys, glob, time
 
 ID, TARGET, RUNS, PREV = sys.argv[1], sys.argv[2], int(sys.argv[3]), int(sys.argv[4])
 SEED = int(os.environ.get("VERIF_SEED", "1")) or 1
-V = "/verif"
+V = os.environ.get("VERIF_ROOT") or "/verif"
+REPO = os.environ.get("VERIF_REPO") or "/repo"
 env = dict(os.environ, CARGO_NET_OFFLINE="true")
 t0 = time.time()
 
@@ -54,7 +55,7 @@ for f in sorted(glob.glob(f"{V}/corpus/{ID}/*.json")):
                     seed(it[k])
     except Exception:
         pass
-for f in glob.glob("/repo/tests/entry/*.rs") + ["/repo/tests/entry.rs"]:
+for f in glob.glob(f"{REPO}/tests/entry/*.rs") + [f"{REPO}/tests/entry.rs"]:
     for q in re.findall(r'(?:assert_query|query)!\(\s*"([^"]+)"', open(f).read()):
         seed(q)
 cmd = [exe, f"{work}/corpus", f"-runs={RUNS}", f"-seed={SEED}", "-len_control=0", "-max_len=256", "-timeout=60",
